@@ -295,6 +295,8 @@ class FuncAccess(MustFlow):
             return {o + ('[]',) if o[0] != 'fresh' else ('fresh',) for o in base}
         if isinstance(expr, ast.Call):
             return self._call_origins(expr, _seen)
+        if isinstance(expr, ast.Constant) and expr.value is None:
+            return set()          # None is no object anybody could share or edit (a placeholder binding)
         if isinstance(expr, ast.IfExp):
             return self.origins(expr.body, _seen) | self.origins(expr.orelse, _seen)
         if isinstance(expr, ast.NamedExpr):
